@@ -76,6 +76,10 @@ CHECKS = {
             "Held on every sampled (generator, size, rootedness, seed) incl. all sizes -1..64 and below-minimum sizes; the topology enumerator is checked exhaustively per n (n <= 8 unrooted / 7 rooted, one more in thorough).",
             "valid sizes as stated in the evidence assumptions (2 tips: an error is the expected answer for binary generators). " + BASE_NOTE,
             "DESIGN.md §5 C16"),
+    "C17": ("history monitor over the complete NNI enumeration: structure walker + model split symmetric difference after every Apply, byte-identical text after every Undo, per-split proposal multiset and pairwise-distinct canonical neighbours at the end; pseudo-root at every inner node in turn; library and gotree nni",
+            "Held on every generated binary tree x root position x both replay modes (inside the callback / collected then replayed in order); sampled trees, complete enumeration per tree. One open known finding (rooted trees whose root has two inner children: the root split gets no proposal) is listed in known_findings.json and announced on every run.",
+            "4..200 tips; inner branch = non-trivial split; only apply/undo in enumeration order. " + BASE_NOTE,
+            "DESIGN.md §5 C17"),
 }
 
 PENDING = {}
